@@ -70,6 +70,9 @@ struct Net {
     done: [bool; 2],
     steps: usize,
     runaway: bool,
+    /// receive capacity: of every burst of the sender (between two of its receives) only the first `cap` datagrams arrive
+    cap: Option<usize>,
+    burst: usize,
 }
 
 struct PairSocket {
@@ -95,6 +98,10 @@ impl Socket for PairSocket {
         let (m, cv) = &*self.net;
         let mut n = m.lock().unwrap();
         if self.role == 0 {
+            n.burst += 1;
+            if n.cap.map(|c| n.burst > c).unwrap_or(false) {
+                return Ok(()); // the receiver's buffer is full: the datagram is lost without a trace
+            }
             n.sr.put(bytes);
         } else {
             n.rs.put(bytes);
@@ -111,6 +118,9 @@ impl Socket for PairSocket {
         let (m, cv) = &*self.net;
         let mut n = m.lock().unwrap();
         n.blocked[self.role] = true;
+        if self.role == 0 {
+            n.burst = 0;
+        }
         cv.notify_all();
         loop {
             n.steps += 1;
@@ -202,6 +212,9 @@ pub fn run_pair(toks: &[&str], dir: &Path, cap: &mut Capture) -> String {
     let mut net = Net::default();
     net.sr.faults = parse_faults(toks[7]);
     net.rs.faults = parse_faults(toks[8]);
+    if toks.len() > 9 {
+        net.cap = Some(toks[9].strip_prefix("cap=").unwrap().parse().unwrap());
+    }
     let net = Arc::new((Mutex::new(net), Condvar::new()));
     cap.take();
     let s_sock = PairSocket { role: 0, net: net.clone(), tmo_ns: tmo };
@@ -249,6 +262,19 @@ pub fn gen_pair(rng: &mut Rng, count: u64, tier: &str) -> Vec<String> {
             }
         }
     }
+    // receive capacity (finding D8): windows that fit the receiver's buffer and windows that do not
+    for ws in [1u64, 2, 3, 4, 8] {
+        for cap in [1u64, 2, 3, 4, 8, 9] {
+            for size in [0u64, 7, 8, 20, 40, 100] {
+                if tier != "thorough" && (ws + cap + size) % 3 != 0 {
+                    continue;
+                }
+                out.push(format!("pair {blk} {ws} {tmo} 1 1 P{size}:{} - - cap={cap}", size % 5));
+            }
+        }
+    }
+    out.push(format!("pair {blk} 4 {tmo} 2 1 P100:3 - - cap=8"));
+    out.push(format!("pair {blk} 4 {tmo} 2 2 P100:3 - - cap=7"));
     // seeded: several faults, larger windows, duplicate mode
     let kinds = ["x", "d", "h"];
     for _ in 0..count {
